@@ -14,6 +14,7 @@ import (
 	"strconv"
 	"strings"
 	"time"
+	"unicode/utf8"
 )
 
 type Solver struct {
@@ -391,20 +392,24 @@ func StringForModel(term string, model map[string]string) string {
 		}
 		return mv.U, true
 	}
-	// if the string equals an interned literal in the model, use it
+	bl, _ := get("(blen " + term + ")")
+	rl, _ := get("(rlen " + term + ")")
+	// if the string equals an interned literal in the model (same id AND same lengths: ids of
+	// literals not mentioned in the query carry no facts), use it
 	if raw, ok := model[term]; ok {
 		if mv, err := parseModelValue(raw); err == nil && mv.Kind == "int" && mv.I >= 0 {
 			internMu.Lock()
 			if int(mv.I) < len(litByID) {
 				s := litByID[mv.I]
 				internMu.Unlock()
-				return s
+				if uint64(len(s)) == bl && uint64(utf8.RuneCountInString(s)) == rl {
+					return s
+				}
+			} else {
+				internMu.Unlock()
 			}
-			internMu.Unlock()
 		}
 	}
-	bl, _ := get("(blen " + term + ")")
-	rl, _ := get("(rlen " + term + ")")
 	// simple anchored patterns ("^a"): honour the model's match outcome
 	internMu.Lock()
 	pats := append([]string{}, patByID...)
